@@ -88,6 +88,7 @@ macro_rules! ring_obj {
                     "send" => { let ok = self.0.publish_movable(arg as u32).0.is_some(); (ok as u64, format!("ok {}", ok)) }
                     "recv" | "drain" => show_opt(self.0.consume_movable()),
                     "len" => { let l = self.0.available_elements_count(); (l as u64, format!("len {}", l)) }
+                    "reserve" => { let r = self.0.leak_slot_internal(|| false).is_some(); (r as u64, format!("ok {}", r)) }
                     _ => panic!("unknown op {}", name),
                 }
             }
@@ -111,6 +112,7 @@ macro_rules! zc_obj {
                         Some((r, id)) => { let v = *r; self.0.release_leaked_id(id); show_opt(Some(v)) }
                         None => show_opt(None),
                     },
+                    "reserve" => { let r = self.0.leak_slot().is_some(); (r as u64, format!("ok {}", r)) }
                     _ => panic!("unknown op {}", name),
                 }
             }
@@ -205,6 +207,19 @@ impl<const N: usize> Obj for UniMoveAtomicObj<N> {
     }
 }
 
+struct MetricObj(verif::AtomicIncrementalAverage64);
+unsafe impl Send for MetricObj {}
+unsafe impl Sync for MetricObj {}
+impl Obj for MetricObj {
+    fn op(&self, name: &str, arg: u64, _prev: &[u64]) -> (u64, String) {
+        match name {
+            "inc" => { self.0.inc(f32::from_bits(arg as u32)); (0, "done".into()) }
+            "probe" => { let (c, a) = self.0.probe(); (c as u64, format!("pair {} {}", c, a.to_bits())) }
+            _ => panic!("unknown op {}", name),
+        }
+    }
+}
+
 fn make(kind: &str, n: usize) -> Arc<dyn Obj> {
     macro_rules! pick { ($t:ident, $e:expr) => { match n { 2 => Arc::new($t::<2>($e)) as Arc<dyn Obj>, 4 => Arc::new($t::<4>($e)), 8 => Arc::new($t::<8>($e)), _ => panic!("N") } } }
     match kind {
@@ -216,6 +231,7 @@ fn make(kind: &str, n: usize) -> Arc<dyn Obj> {
         "PoolFullSync" => pick!(PoolF, BoundedOgreAllocator::new()),
         "Stack" => pick!(StackObj, OgreStack::new("s".to_string())),
         "UniMoveAtomic" => { use reactive_mutiny::prelude::*; match n { 2 => Arc::new(UniMoveAtomicObj::<2>(ChannelCommon::new("c"))) as Arc<dyn Obj>, 4 => Arc::new(UniMoveAtomicObj::<4>(ChannelCommon::new("c"))), _ => panic!("N") } },
+        "Metric" => Arc::new(MetricObj(verif::AtomicIncrementalAverage64::new())) as Arc<dyn Obj>,
         "OgreArcAtomic" => match n { 2 => Arc::new(ArcA::<2>::new()) as Arc<dyn Obj>, 4 => Arc::new(ArcA::<4>::new()), _ => panic!("N") },
         "OgreArcFullSync" => match n { 2 => Arc::new(ArcF::<2>::new()) as Arc<dyn Obj>, 4 => Arc::new(ArcF::<4>::new()), _ => panic!("N") },
         _ => panic!("unknown object kind {}", kind),
